@@ -118,6 +118,28 @@ def isolation(ctx, crate, crs, tag):
     for i, t in b.calls_to(SOLVER + "run_sat_process_unsolvable"):
         ok = derives_only_from(b, t["args"][2], sl) and not _adds_const(b, t["args"][2])
         ctx.ob(R, b.key, "failure-handler-gets-starting-level", ok, where_call(b, i), "run_sat_process_unsolvable is told the run's starting level")
+    # the conflict-driven backjump inside the run: analyze() undoes to a level computed from the learnt clause alone.  For the
+    # run to stay on top of the solution it started from, the decision loop must know the run's starting level (and clamp /
+    # give up), or run_sat must notice afterwards that the level fell below it.  Neither => a learnt clause whose literals all
+    # sit at low levels pops decisions of the hard solution, and the later `level == starting_level + 1` / restart logic works
+    # with a stale starting level.
+    rd = b.calls_to(SOLVER + "resolve_dependencies")
+    knows = False
+    for i, t in rd:
+        for a in t["args"][1:]:
+            if derives_only_from(b, a, sl) and not _level_var_from(b, a, sl):
+                knows = True
+    notices = False
+    for c in q.conds(b, crs):
+        if c.kind == "cmp" and c.op in ("Lt", "Le", "Gt", "Ge"):
+            la, lb = q.slice_locals(b, c.a), q.slice_locals(b, c.b)
+            if (sl in la) != (sl in lb):
+                other = lb if sl in la else la
+                if any(any(i == bb for i, _ in rd) for l in other for bb, idx, r in b.defs_of(l) if idx == "term"):
+                    notices = True
+    ctx.floor(R, "resolve_dependencies calls in run_sat", len(rd), 1)
+    ctx.ob(R, b.key, "backjump-cannot-go-below-starting-level", knows or notices, b.loc(),
+           "the decision loop is told the run's starting level, or run_sat compares the level it gets back with it")
     pu = body_by_key(crate, SOLVER + "run_sat_process_unsolvable")
     if pu is not None:
         for i, t in pu.calls_to(DT + "undo_until"):
